@@ -4,6 +4,7 @@ import (
 	"math"
 
 	"github.com/sahandsafizadeh/qeep/component/losses"
+	"github.com/sahandsafizadeh/qeep/tensor"
 	vrt "github.com/sahandsafizadeh/qeep/zzvrt"
 )
 
@@ -17,16 +18,39 @@ func clipRef(v, l, u float64) float64 {
 }
 
 func computeLoss(name string, yp, yt T) (T, error) {
+	return newLoss(name)(yp, yt)
+}
+
+// newLoss creates ONE loss object; the returned function computes with that object every time.
+func newLoss(name string) func(yp, yt T) (T, error) {
 	switch name {
 	case "MSE":
-		return losses.NewMSE().Compute(yp, yt)
+		return losses.NewMSE().Compute
 	case "BCE":
-		return losses.NewBCE().Compute(yp, yt)
+		return losses.NewBCE().Compute
 	case "CE":
-		return losses.NewCE().Compute(yp, yt)
+		return losses.NewCE().Compute
 	}
 	vrt.Assert("harness: unknown loss", false)
-	return nil, nil
+	return func(T, T) (T, error) { return nil, nil }
+}
+
+// warmUp uses a component once on a tracked input of the given shape, back-propagation included, the
+// way an earlier training step would have ("warm" = 1 in the work item).
+func warmUp(dims []int, positive bool, use func(x T) (T, error)) {
+	if vrt.ParamOr("warm", 0) != 1 {
+		return
+	}
+	w, we := mk("w", dims, true)
+	if positive {
+		for k := range we {
+			vrt.Assume(vrt.And(we[k] >= 0.25, we[k] <= 0.75))
+		}
+	}
+	y, err := use(w)
+	if err != nil || y == nil || tensor.BackPropagate(y) != nil {
+		vrt.Assume(false)
+	}
 }
 
 // refLoss computes the defined scalar for flat predictions / targets of B rows and C classes.
@@ -202,7 +226,9 @@ func H_C13_lossgrad() {
 			vrt.Assume(vrt.Or(du > 1e-200, du < -1e-200))
 		}
 	}
-	l, err := computeLoss(name, yp, yt)
+	lossOf := newLoss(name)
+	warmUp(dims, true, func(w T) (T, error) { return lossOf(w, yt) })
+	l, err := lossOf(yp, yt)
 	vrt.Assert("well-formed inputs accepted", err == nil)
 	if err != nil || l == nil {
 		return
@@ -225,5 +251,29 @@ func H_C13_lossgrad() {
 		checkGrad(name+" d/dq (chain)", q, true, dims, gq)
 		checkGrad(name+" d/dr (chain)", r, true, dims, gr)
 	}
+	vrt.Reach("done")
+}
+
+// H_C12_fp: bit-precise (float64 = IEEE-754 binary64) sign and finiteness of the MSE scalar: for every
+// pair of finite predictions / targets of magnitude <= 1e6 the loss is a number >= 0.  An algebraically
+// equivalent but cancelling formula (e.g. t.t - 2 t.p + p.p) fails this in floating point only.
+func H_C12_fp() {
+	B := vrt.Param("b")
+	dims := []int{B}
+	yp, pe := mk("p", dims, vrt.Param("tracked") == 1)
+	yt, te := mk("t", dims, false)
+	for k := 0; k < B; k++ {
+		vrt.Assume(vrt.And(pe[k] >= -1e6, pe[k] <= 1e6))
+		vrt.Assume(vrt.And(te[k] >= -1e6, te[k] <= 1e6))
+	}
+	l, err := computeLoss("MSE", yp, yt)
+	vrt.Assert("valid inputs accepted", err == nil)
+	if err != nil || l == nil {
+		return
+	}
+	f := vrt.Flat(l)
+	vrt.Assert("bit-precise: MSE is a single number", len(f) == 1)
+	vrt.Assert("bit-precise: MSE is a number >= 0 (not NaN, not negative)", f[0] >= 0)
+	vrt.Assert("bit-precise: MSE of magnitudes <= 1e6 is finite", f[0] <= 1e300)
 	vrt.Reach("done")
 }
